@@ -44,6 +44,7 @@ type VConn struct {
 	mu          sync.Mutex
 	auto        bool // complete every operation immediately (connection set-up)
 	gateClose   bool // Close parks at a gate as well
+	deadline    time.Time
 	closed      bool
 	pending     []*gate
 	seq         int
@@ -148,8 +149,23 @@ func (v *VConn) SetReadDeadline(t time.Time) error {
 	}
 	if r.err == nil {
 		v.deadlineSet = !t.IsZero()
+		v.deadline = t
 	}
 	return r.err
+}
+
+// Deadline returns the read deadline currently set (zero: none).
+func (v *VConn) Deadline() time.Time {
+	v.mu.Lock()
+	defer v.mu.Unlock()
+	return v.deadline
+}
+
+// Written returns the Write units accepted so far.
+func (v *VConn) Written() [][]byte {
+	v.mu.Lock()
+	defer v.mu.Unlock()
+	return append([][]byte(nil), v.written...)
 }
 
 func (v *VConn) Close() error {
